@@ -202,7 +202,7 @@ TargetRst(c) ==
 
 \* the target, having half-closed, closes completely: what the proxy still writes to it is lost, then refused
 TargetClose(c) ==
-  /\ AllowTClose /\ st[c].tgt = "up" /\ st[c].tfin /\ ~st[c].trst /\ st[c].tcl = "no"
+  /\ AllowTClose /\ st[c].tgt \in {"up", "closed"} /\ st[c].tfin /\ ~st[c].trst /\ st[c].tcl = "no"
   /\ Step(c, [st[c] EXCEPT !.tcl = "closed"], ob[c], "TClose", 0)
 \* the client aborts the connection during the relay (before having half-closed)
 ClientRst(c) ==
@@ -595,6 +595,7 @@ ExpectedStatus(s, o) ==
   ELSE IF s.tk = "deny" THEN {"ERR_ADDRESS"}
   ELSE IF s.tk = "refuse" THEN {"ERR_CONNECT"}
   ELSE IF o.cancelled THEN {"ERR_CONNECT", "ERR_RELAY_CLIENT", "ERR_RELAY_TARGET", "OK"}
+  ELSE IF s.crst /\ s.trst THEN {"ERR_RELAY_CLIENT", "ERR_RELAY_TARGET"}      \* both peers reset: either error may win
   ELSE IF OHasBad(o) \/ s.crst THEN {"ERR_RELAY_CLIENT"}
   \* the target closed completely: the first chunk written after that is lost silently, the second write fails
   ELSE IF s.tcl # "no" THEN (IF o.afterClose >= 2 THEN {"ERR_RELAY_CLIENT"} ELSE {"OK", "ERR_RELAY_CLIENT"})
